@@ -8,7 +8,7 @@
 //!   {"id":..,
 //!    "nodes":[{"par":0,"kind":"dir"|"file"|"link","big":bool,"tgt":0..,"dev":1|2}, ...],   (1-based ids)
 //!    "roots":[1,3],
-//!    "cases":[{"md":-1|k,"fs":bool,"fl":bool,"sfs":bool,"filt":0|node,"ignd":0|node,"ignt":0|node}, ...],
+//!    "cases":[{"md":-1|k,"fs":bool,"fl":bool,"sfs":bool,"filt":0|node,"ignd":0|node,"ignt":0|node,"igndir":bool}, ...],
 //!    "threads":[1,2,4,16], "perturb":[4], "seed":0}
 //! stdout, one result per line:
 //!   {"id":..,"cases":[{"serial":RUN,"par":{"1":RUN,...},"pert":{"4":RUN}}, ...]}
@@ -19,7 +19,7 @@
 //! device (device 1: a fresh directory under /tmp, device 2: a fresh directory under /dev/shm, which
 //! is a different st_dev here); symlinks hold absolute target paths; "big" files have 4096 bytes and
 //! `max_filesize` is 1000; the entry filter rejects one file name; the ignored set is a custom ignore
-//! file `.cign` placed in directory `ignd` holding the line `n<ignt>` (the `.cign` file itself is a
+//! file `.cign` placed in directory `ignd` holding the line `n<ignt>` (`n<ignt>/` if igndir; the `.cign` file itself is a
 //! harness artefact and is dropped from the observations). Paths are reported with the base
 //! directories replaced by `@1` / `@2`.
 use std::fs;
@@ -178,6 +178,7 @@ struct Case {
     filt: usize,
     ignd: usize,
     ignt: usize,
+    igndir: bool,
 }
 
 fn builder(nodes: &[Node], bases: &Bases, roots: &[usize], c: &Case) -> WalkBuilder {
@@ -313,6 +314,7 @@ fn parse_case(c: &Value) -> Case {
         filt: c["filt"].as_u64().unwrap_or(0) as usize,
         ignd: c["ignd"].as_u64().unwrap_or(0) as usize,
         ignt: c["ignt"].as_u64().unwrap_or(0) as usize,
+        igndir: c["igndir"].as_bool().unwrap_or(false),
     }
 }
 
@@ -338,7 +340,7 @@ fn run_job(job: &Value) -> (Value, bool) {
         let c = parse_case(cv);
         let ignfile = if c.ignd != 0 {
             let p = phys(&nodes, &bases, c.ignd).join(IGN_NAME);
-            fs::write(&p, format!("n{}\n", c.ignt)).expect("write ignore file");
+            fs::write(&p, format!("n{}{}\n", c.ignt, if c.igndir { "/" } else { "" })).expect("write ignore file");
             Some(p)
         } else {
             None
